@@ -105,7 +105,7 @@ pub struct SizesInfo {
 impl SizesInfo {
     /// Get the uncompressed block size of block `block_num`
     fn uncompressed_block_size_at(&self, block_num: usize) -> u32 {
-        if block_num < self.compressed_sizes.len() - 1 {
+        if block_num + 1 < self.compressed_sizes.len() {
             UNCOMPRESSED_DATA_SIZE
         } else {
             self.last_block_size
@@ -117,12 +117,15 @@ impl SizesInfo {
         let block_num = uncompressed_pos / u64::from(UNCOMPRESSED_DATA_SIZE);
         let index = usize::try_from(block_num)
             .map_err(|_| io::Error::new(io::ErrorKind::InvalidData, "Integer conversion failed"))?;
-        Ok(self.compressed_sizes[index])
+        self.compressed_sizes
+            .get(index)
+            .copied()
+            .ok_or(Error::EndOfStream)
     }
 
     /// Maximum uncompressed available position
     fn max_uncompressed_pos(&self) -> u64 {
-        (self.compressed_sizes.len() as u64 - 1) * u64::from(UNCOMPRESSED_DATA_SIZE)
+        (self.compressed_sizes.len() as u64).saturating_sub(1) * u64::from(UNCOMPRESSED_DATA_SIZE)
             + u64::from(self.last_block_size)
     }
 
